@@ -6,13 +6,14 @@
    (clients incl. Release/reuse and draining, step / apply / commit workers, tick, gc, closer)
    over Model/Requests.v, the model of /repo/request.go at critical-section granularity, for every
    number of proposal shards, queue sizes, timeout value and choice of the pooled object.
-   [env_ok ops s0]: along the run the environment kept its three assumptions (fresh proposal
-   keys, node.close() once per table, an entry reported committed at most once) - the model
+   [env_ok ops s0]: along the run the environment kept its three assumptions (a new proposal key
+   differs from the keys still pending or in flight in its node, node.close() once per table, an
+   entry reported committed at most once) - the model
    records a broken assumption in [h_broken].
    [got s r] is the ghost list of everything pushed into the channels of request r's object
    while r owned it; [nterm] / [ncomm] count terminal results / Committed notifications. *)
 From Coq Require Import NArith List.
-From DB Require Import Gen.GenC12 Model.Requests Proofs.Requests Proofs.RequestsInv.
+From DB Require Import Gen.GenC12 Model.Requests Proofs.Requests Proofs.RequestsInv Proofs.RequestsLive.
 Import ListNotations.
 Open Scope N_scope.
 
@@ -47,6 +48,15 @@ Theorem live_requests_have_no_result : forall ps nc pq rq ops, env_ok ops (init 
                                r_rel (h_reqs (H s) (sr sl)) = false.
 Proof. exact live_requests_have_no_result_proved. Qed.
 Print Assumptions live_requests_have_no_result.
+
+(* liveness as safety: an accepted request that has no terminal result yet is still referenced -
+   by a live table, one of the two queues or the step worker's hand ([live]) *)
+Theorem accepted_without_result_is_referenced : forall ps nc pq rq ops, env_ok ops (init ps nc pq rq) ->
+  let s := run ops (init ps nc pq rq) in
+  forall r, r < h_nreq (H s) -> r_status (h_reqs (H s) r) = 1 -> nterm (got s r) = 0%nat ->
+  In r (map sr (live s)).
+Proof. exact accepted_without_result_is_referenced_proved. Qed.
+Print Assumptions accepted_without_result_is_referenced.
 
 (* truthfulness: every result ever delivered is the one its code path produces - the apply path
    delivers Completed/Rejected carrying exactly the value it was given (no assumption on the
